@@ -132,10 +132,8 @@ fn baseline_tail(slot: &str) -> Vec<u32> {
     let q = page[open];
     let mut i = open + 1;
     while page[i] != q { i += 1; }
-    let got: String = page[open + 1..i].iter().collect();
-    if got != benign(slot) {
-        tool_error(&format!("baseline page: slot {slot} located at the wrong literal ({got:?})"));
-    }
+    // (what the literal holds is not checked here: a template that writes another setting into this
+    // slot is a finding for TLC -- the harmless value of every slot is a case of its own)
     page[i + 1..i + 4].iter().map(|c| *c as u32).collect()
 }
 
@@ -184,6 +182,12 @@ fn main() {
         id += 1;
         w.write(&json!({"id": id, "slot": "", "kind": "base", "src": "tlc", "val": offs,
                         "win": page[s0..e0].iter().map(|c| *c as u32).collect::<Vec<u32>>(), "tail": [], "problem": ""}));
+    }
+    for s in SLOTS {
+        // the harmless configuration itself, judged like any other value
+        id += 1;
+        let val: Vec<u32> = benign(s).chars().map(|c| c as u32).collect();
+        w.write(&observe(id, "tlc", s, &val, &tails));
     }
     for c in read_ndjson(&a[1]) {
         let slot = c["slot"].as_str().unwrap_or_else(|| tool_error("case without slot")).to_string();
